@@ -54,4 +54,33 @@ Definition fl_const_power (mn mx : Q) (bins : Z) : list Q :=
   let delta := rnd (rnd (mx - mn) / inject_Z bins) in
   fl_loop mn mx delta (Z.to_nat bins) (fl_first_edge mn mx bins).
 
+(* ---- the CURRENT code in doubles (used by the correspondence for exact comparison, no tolerance) ------- *)
+(* generate_segmented_cylinder, n_segments > 1: segment_length = length / n_segments; offset i * segment_length *)
+Definition fl_segment (L : Q) (n : Z) (i : Z) : Q * Q :=
+  let h := rnd (L / inject_Z n) in (rnd (inject_Z i * h), h).
+
+(* _update_cache: _delta_wavelength and wavelengths[index] = min + (0.5 + index) * delta  (0.5 + index is exact) *)
+Definition fl_delta (mn mx : Q) (bins : Z) : Q := rnd (rnd (mx - mn) / inject_Z bins).
+Definition fl_centre (mn delta : Q) (i : nat) : Q := rnd (mn + rnd (((1 # 2) + inject_Z (Z.of_nat i)) * delta)).
+
+(* ConstantSpectrum._get_bin_power_spectral_density since 879f8f0 *)
+Definition fl_qmax (a b : Q) : Q := if Qle_bool a b then b else a.
+Definition fl_qmin (a b : Q) : Q := if Qle_bool a b then a else b.
+Definition fl_overlap_psd (mn mx lo hi : Q) : Q :=
+  let l := fl_qmax lo mn in
+  let u := fl_qmin hi mx in
+  if Qle_bool u l then 0 else rnd (rnd (u - l) / rnd (rnd (mx - mn) * rnd (hi - lo))).
+
+Fixpoint fl_overlap_loop (mn mx delta : Q) (n : nat) (lo : Q) : list Q :=
+  match n with
+  | O => []
+  | S n' => let hi := rnd (lo + delta) in fl_overlap_psd mn mx lo hi :: fl_overlap_loop mn mx delta n' hi
+  end.
+
+(* power_spectral_density of ConstantSpectrum(mn, mx, bins) *)
+Definition fl_const_psd (mn mx : Q) (bins : Z) : list Q :=
+  let delta := fl_delta mn mx bins in
+  let lo0 := rnd (fl_centre mn delta 0 - rnd (delta * (1 # 2))) in
+  fl_overlap_loop mn mx delta (Z.to_nat bins) lo0.
+
 End Fl.
